@@ -64,10 +64,14 @@ macro_rules
     | (with_reducible refine Frame.bind ?_ (fun _ => ?_)) <;> frame
     | (split <;> frame))
 
-set_option maxRecDepth 4000 in
-example (env : Env) (n : Nat) : Frame (parseFormatStringOperator env n) := by
-  have := frame_formatNamedParams
-  unfold parseFormatStringOperator
+
+
+example (d : TT) : Frame (parseScopeModifier d) := by
+  unfold parseScopeModifier
+  frame
+
+example (env : Env) : Frame (parsePoryswitchHeader env) := by
+  unfold parsePoryswitchHeader
   frame
 
 end Pory.Parser
